@@ -19,7 +19,20 @@
    Gap (stated, not proved): ENG takes "a vertex is invoked once, after its dependencies are resolved" and "finish(0)
    when the last requested target is sealed" as its step guards; these are exactly what the A/B/C theorems establish
    for the atomic-level machines, but the refinement ENG <- (A x B x C composed over a whole graph) is argued, not
-   machine-checked, and is tied to the code by the correspondence run instead. *)
+   machine-checked, and is tied to the code by the correspondence run instead.
+
+   KNOWN FINDING (sig run-races-external-release, listed in KNOWN_FINDINGS.txt; the quantifier's "externally injected
+   data arriving concurrently with activation"): input = any graph whose input d is emitted by another thread, with
+   Graph::run() starting after d is sealed but before that emit()/release() has returned (check cases with exec suffix
+   'x'; directed case x.dir: seed 921473905, PCT, 3 workers, d0 injected after 7 yields, targets d8,d7).  Observed: fire()
+   brings _waiting_vertex_num to 0 while the release is still notifying successors, the closure finishes with -1 ("all
+   vertex finish but data not ready") although the sequential evaluation succeeds, wait() returns, and the late release
+   then invokes vertices on the flushed / destroyed ClosureContext (SIGSEGV in depend_vertex_sub or Promise set twice).
+   In the model this is exactly the guard of CVAdd in machine C (a GraphVertexClosure is created only before fire() or
+   from inside a live vertex): c05_closure_counters is proved under it and an external release violates it.  No small
+   fix: the closure counts only GraphVertexClosure objects and an external release holds none; a dependency cannot tell
+   "target sealed, notification still coming" from "never coming"; a repair needs the releasing thread to register with
+   the closures of activated successors, i.e. a change of the protocol, not of one expression. *)
 From Coq Require Import ZArith List Bool.
 Require Import Verif.Gen.Gen_anyflow Verif.Conc.Machine Verif.AF.AFModel Verif.AF.AFProofs.
 Import ListNotations.
